@@ -7,6 +7,7 @@ import sys; sys.path.insert(0,'tools')
 from registry import PROPS
 print(' '.join(sorted(PROPS)))"); do
   OUT=$(./check $P --tier ${TIER:-quick} 2>&1); RC=$?
+  mkdir -p .build/logs; echo "$OUT" > .build/logs/$P.${TIER:-quick}.log   # full output (violation messages) for later inspection
   echo "$OUT" | grep -E "^\[$P\]|VIOLATION|KNOWN-FINDING" | cut -c1-220
   [ $RC -ne 0 ] && { echo "  -> $P exit $RC"; FAIL=1; }
 done
